@@ -603,14 +603,16 @@ func (p *Process) StartWith(ctx context.Context, element schema.FlowNodeInterfac
 	}
 	switch eventNode := flowNode.(type) {
 	case *startEvent:
-		verifhook.Point("process.startwith.before_trigger")
-		eventNode.Trigger(ctx)
-		verifhook.Point("process.startwith.after_trigger")
-
-		// StartAll cease flow monitor
+		// StartAll cease flow monitor: it subscribes to the traces (and takes the completion
+		// lock) before the start event is triggered, otherwise the start event's own
+		// flow trace can be broadcast before anybody listens and completion is never reported
 		sender := p.tracer.RegisterSender()
 		go p.ceaseFlowMonitor(p.subTracer)(ctx, sender)
 		verifhook.Point("process.startwith.after_monitor")
+
+		verifhook.Point("process.startwith.before_trigger")
+		eventNode.Trigger(ctx)
+		verifhook.Point("process.startwith.after_trigger")
 		p.tracer.Send(InstantiationTrace{InstanceId: p.id})
 
 	case *throwEvent:
